@@ -93,7 +93,7 @@ func serverSide(sp *Spec, r *Result, ex expectation, f *fails) (honoured bool) {
 	gave := r.SrvErr == nil && !r.SrvPCNil
 	if ex.udp {
 		if r.SrvErr != netio.ErrHandleStreamDone || !r.SrvPCNil {
-			f.add("udp-associate-not-handled", authShape(sp), "UDP ASSOCIATE with UDP enabled: server returned err=%s pendingConn=%v, expected ErrHandleStreamDone after the client closed", errStr(r.SrvErr), !r.SrvPCNil)
+			f.add("udp-associate-not-handled", "-", "UDP ASSOCIATE with UDP enabled: server returned err=%s pendingConn=%v, expected ErrHandleStreamDone after the client closed", errStr(r.SrvErr), !r.SrvPCNil)
 		}
 		if !r.SrvAddr.eq(sp.Target.endpoint()) {
 			f.add("server-addr-mismatch", sp.Target.class()+",udp-associate", "server extracted %s, client asked for %s", r.SrvAddr, sp.Target.endpoint())
@@ -118,13 +118,13 @@ func serverSide(sp *Spec, r *Result, ex expectation, f *fails) (honoured bool) {
 		if ex.stage == "cmd" {
 			e, ok := errors.AsType[socks5.UnsupportedCommandError](r.SrvErr)
 			if !ok || byte(e) != sp.Cmd {
-				f.add("server-command-mismatch", fmt.Sprintf("tcp=%v,udp=%v", sp.EnableTCP, sp.EnableUDP), "client sent command %d; server's error is %q, expected an unsupported-command error naming %d", sp.Cmd, errStr(r.SrvErr), sp.Cmd)
+				f.add("server-command-mismatch", "-", "client sent command %d; server's error is %q, expected an unsupported-command error naming %d", sp.Cmd, errStr(r.SrvErr), sp.Cmd)
 			}
 		}
 		return false
 	}
 	if !gave {
-		f.add("valid-request-refused", sp.Target.class()+","+authShape(sp), "server refused a request it had to honour: err=%s pendingConn=%v", errStr(r.SrvErr), !r.SrvPCNil)
+		f.add("valid-request-refused", sp.Target.class(), "server refused a request it had to honour: err=%s pendingConn=%v", errStr(r.SrvErr), !r.SrvPCNil)
 		return false
 	}
 	if !r.SrvAddr.eq(sp.Target.endpoint()) {
